@@ -463,6 +463,10 @@ fn run(ctx: &mut Ctx) {
         let many: String = (0..12000).map(|i| format!("u{i:05}")).collect::<Vec<_>>().join(" ");
         ords.push(format!("{many}\n{}", used.join(" ")));
         ords.push(format!("{}\n{many}", used.join(" ")));
+        // lines that begin with a table bar, a comment mark or a bullet
+        ords.push(used.join("\n| "));
+        ords.push(used.join("\n# "));
+        ords.push(format!("- {}", used.join("\n- ")));
         for o in ords {
             idx += 1;
             if ctx.mine(idx) {
